@@ -5,7 +5,7 @@ ids=$(python3 -c "import json;print(' '.join(c['property_id'] for c in json.load
 rc=0
 for id in $ids $@; do
   out=$(bin/govc check $id 2>&1); r=$?
-  echo "$out" | grep -E "^(VIOLATION|KNOWN|$id:)" | cut -c1-200
-  [ $r -ne 0 ] && rc=1
+  echo "$out" | grep -E "^(VIOLATION|KNOWN|$id:|govc:)" | cut -c1-200
+  if [ $r -ne 0 ]; then rc=1; echo "  ($id: exit status $r)"; fi
 done
 exit $rc
